@@ -190,3 +190,68 @@ func verifH_C12_event_mw() {
 	}
 	verifReach("end")
 }
+
+// C12_concurrent: two clients (two connections of the same server) ask for the same namespace at the same time; the
+// middleware accepts or rejects each of them by its own symbolic verdict and yields while deciding, so the two
+// admissions interleave in every way at synchronisation points. Each client ends up exactly as its own verdict says:
+// the accepted one listed, connected and answered with CONNECT, the rejected one nowhere and answered with one
+// CONNECT_ERROR - a verdict never leaks from one admission to the other.
+//
+//verif:unwind 12
+//verif:preempt 2
+//verif:visops 140
+//verif:rand concrete
+func verifH_C12_concurrent() {
+	w := verifServerWorld("/")
+	n := w.nsp("/")
+	eio2 := &verifEIOSock{id: "eio2"}
+	var enc2 []verifEncoded
+	conn2 := &serverConn{eio: eio2, eioPacketQueue: newPacketQueue(), server: w.server, sockets: newServerSocketStore(), nsps: newNspStore(), parser: verifRecParser{log: &enc2}, debug: newNoopDebugger()}
+	acc1, acc2 := verifAnyBool(), verifAnyBool()
+	n.Use(func(socket ServerSocket, handshake *Handshake) any {
+		s := socket.(*serverSocket)
+		verdict := acc1
+		if s.conn == conn2 {
+			verdict = acc2
+		}
+		verifYield()
+		if verdict {
+			return nil
+		}
+		return "denied"
+	})
+	verifThreads(true)
+	verifGo(func() {
+		w.conn.connect(&parser.PacketHeader{Type: parser.PacketTypeConnect, Namespace: "/"}, verifNoDecode)
+	})
+	verifGo(func() {
+		conn2.connect(&parser.PacketHeader{Type: parser.PacketTypeConnect, Namespace: "/"}, verifNoDecode)
+	})
+	verifWaitQuiescent()
+	_, in1 := w.conn.sockets.getByNsp("/")
+	_, in2 := conn2.sockets.getByNsp("/")
+	verifAssert(in1 == acc1 && in2 == acc2, "each connection is attached exactly if its own admission was accepted")
+	want := 0
+	if acc1 {
+		want++
+	}
+	if acc2 {
+		want++
+	}
+	verifAssert(len(n.Sockets()) == want, "the namespace lists exactly the accepted sockets")
+	count := func(log []verifEncoded, typ parser.PacketType) int {
+		c := 0
+		for _, e := range log {
+			if e.typ == typ {
+				c++
+			}
+		}
+		return c
+	}
+	c1ok, c1err := count(w.encoded, parser.PacketTypeConnect), count(w.encoded, parser.PacketTypeConnectError)
+	c2ok, c2err := count(enc2, parser.PacketTypeConnect), count(enc2, parser.PacketTypeConnectError)
+	verifAssert((c1ok == 1) == acc1 && (c1err == 1) == !acc1 && c1ok+c1err == 1, "the first client gets exactly the answer its verdict calls for")
+	verifAssert((c2ok == 1) == acc2 && (c2err == 1) == !acc2 && c2ok+c2err == 1, "so does the second")
+	verifAssert(verifHeldLocks() == 0, "no mutex left held")
+	verifReach("end")
+}
